@@ -10,8 +10,9 @@
 (* position, an optional *args parameter; kinds function / method /        *)
 (* extension; layers of contexts with exclusivity; calls with or without   *)
 (* receiver, positional arguments, skipped slots and keyword arguments.    *)
-(* Not in the fragment: **kwargs, keyword-only, lazy and constant-only     *)
-(* parameters, no_kwargs functions.                                        *)
+(* no_kwargs functions (an `a => b` argument reaches them as a positional   *)
+(* mapping value).  Not in the fragment: **kwargs, keyword-only, lazy and   *)
+(* constant-only parameters.                                               *)
 (***************************************************************************)
 EXTENDS Naturals, Sequences, FiniteSets, TLC
 
@@ -27,8 +28,9 @@ Ancestors(c) == Parents(c) \cup UNION {Ancestors(p) : p \in Parents(c)}
 SubEq(c, t)     == c = t \/ t \in Ancestors(c)        \* issubclass
 StrictSub(c, t) == c # t /\ t \in Ancestors(c)        \* PythonType.is_specialization_of
 
-\* does a parameter of type t accept the (evaluated) value v?  v is a class name or "Null"
-Accepts(t, v) == IF v = "Null" THEN t = "Any" ELSE SubEq(v, t)
+\* does a parameter of type t accept the (evaluated) value v?  v is a class name, "Null", or "Rule" - the mapping object
+\* that an `a => b` argument becomes for a function that takes no keyword arguments
+Accepts(t, v) == IF v \in {"Null", "Rule"} THEN t = "Any" ELSE SubEq(v, t)
 
 (* ---- overloads ------------------------------------------------------- *)
 \* parameter: [name, ty, def]   ty = "hidden" for an injected parameter (context/engine)
@@ -37,7 +39,10 @@ Visible(o) == SelectSeq(o.params, LAMBDA p : p.ty # "hidden")      \* caller-vis
 
 (* ---- calls ------------------------------------------------------------ *)
 \* call: [recv (value or "none"), args (sequence of values or "skip"), kw (sequence of <<name, value>>)]
-FullArgs(call) == IF call.recv = "none" THEN call.args ELSE <<call.recv>> \o call.args
+FullArgs0(call) == IF call.recv = "none" THEN call.args ELSE <<call.recv>> \o call.args
+\* a no_kwargs overload sees the keyword-looking arguments as further positional values
+CallFor(o, call) == IF o.nokw THEN [recv |-> call.recv, args |-> call.args \o [i \in 1..Len(call.kw) |-> "Rule"], kw |-> <<>>] ELSE call
+FullArgs(call) == FullArgs0(call)
 KwNames(call)  == {call.kw[i][1] : i \in 1..Len(call.kw)}
 KwValue(call, n) == (CHOOSE i \in 1..Len(call.kw) : call.kw[i][1] = n)
 KwVal(call, n) == call.kw[KwValue(call, n)][2]
@@ -52,8 +57,9 @@ KwVal(call, n) == call.kw[KwValue(call, n)][2]
 (*            "default" stands for an omitted/skipped defaulted parameter] *)
 (***************************************************************************)
 NoBinding == [ok |-> FALSE, pos |-> <<>>, kw |-> {}, vals |-> <<>>]
-MapArgs(o, call) ==
-    LET args == FullArgs(call)
+MapArgs(o, call0) ==
+    LET call == CallFor(o, call0)
+        args == FullArgs(call)
         vis  == Visible(o)
         n    == Len(vis)
         names == {vis[i].name : i \in 1..n}
@@ -119,6 +125,10 @@ FirstMatchingLayer(cands, call) ==
             ELSE IF Cardinality(winners) = 1 THEN Out("run", (CHOOSE o \in winners : TRUE).tag, TRUE)
             ELSE Out("Ambiguous", "", TRUE)
 
+MixedFlags(layers, call) ==
+    LET gathered == Gather(layers, call)
+    IN Cardinality(UNION {{o.nokw : o \in gathered[i]} : i \in 1..Len(gathered)}) > 1
+
 Resolve(layers, call) ==
     LET gathered == Gather(layers, call)
         \* the receiver is already a value when f is resolved, so its type is checked together with the arity
@@ -126,7 +136,9 @@ Resolve(layers, call) ==
                         Accepts(MapArgs(o, call).vals[1][1], MapArgs(o, call).vals[1][2]))
         mapped   == [i \in 1..Len(gathered) |-> {o \in gathered[i] : early(o)}]
         nonempty == SelectSeq(mapped, LAMBDA s : s # {})
+        flags == UNION {{o.nokw : o \in gathered[i]} : i \in 1..Len(gathered)}
     IN IF gathered = <<>> THEN Out("Unknown", "", FALSE)
+       ELSE IF Cardinality(flags) > 1 THEN Out("Ambiguous", "", FALSE)      \* overloads that disagree about keyword arguments
        ELSE IF nonempty = <<>> THEN Out("NoMatch", "", FALSE)
        ELSE FirstMatchingLayer(nonempty, call)
 
